@@ -374,7 +374,8 @@ func (c *compiler) checkLR0() {
 }
 
 func (c *compiler) addShift(from, to *state) {
-	if len(from.shifts) == 0 && len(from.reduce) > 0 {
+	if int(to.symbol) < c.grammar.Terminals && len(from.reduce) > 0 {
+		// A terminal shift next to a reduction needs lookahead.
 		from.lr0 = false
 	}
 	from.shifts = append(from.shifts, to.index)
